@@ -130,3 +130,8 @@ func TwinB() reflect.Type {
 	type Twin interface{ M0() }
 	return reflect.TypeOf((*Twin)(nil)).Elem()
 }
+
+// Universe types of further Go kinds; each value carries its token.
+type VM map[string]*Tok // map kind (uncomparable): the token is m["t"]
+type VF func() *Tok     // func kind (uncomparable): the token is what the function returns
+type VA [1]*Tok         // array kind
